@@ -223,11 +223,13 @@ def c15_search(r, seed, tier, model_ok):
         if k < .8: return "".join(c + R.choice(VOW) if R.random() < .5 else c for c in s)
         if k < .9: return s + R.choice(VOW)
         return s[:1] + R.choice(["-", " x "]) + s[1:] if len(s) > 1 else s + "ㅎ"
+    # numbers whose spelling BEGINS with ㅂ (lowest base-8 digit 5) but which are not 5, the heading of the built-in modules: -5 (ㅂㄱ), -13 (ㅂㄴ), 69 (ㅂㄱㄴ), -45 (ㅂㅂ)
+    POOL = [0, 1, 2, -1, 8, 9, -5, -13, 69, -45]
     LITS = {}
     def gen_tree(depth, used):
         es = []; names = set(); lits = []
         for _ in range(R.randrange(0, 5)):
-            lit = R.choice([0, 1, 2, -1, 8, 9]); nm = spell(lit)
+            lit = R.choice(POOL); nm = spell(lit)
             if nm in names or "/" in nm or nm in (".", "..") or not nm.strip(): continue
             names.add(nm)
             if depth > 0 and R.random() < .45: es.append((nm, gen_tree(depth - 1, used)))
@@ -253,7 +255,7 @@ def c15_search(r, seed, tier, model_ok):
         for i in range(n):
             d = os.path.join(SCR, "c%d" % i); os.mkdir(d); es = gen_tree(2, [0]); keep.append(es); write_tree(d, es)
             lits = walk(es) if R.random() < .75 else []
-            if not lits or len(lits) > 3: lits = [R.choice([0, 1, 2, -1, 8, 9]) for _ in range(R.randrange(1, 4))]
+            if not lits or len(lits) > 3: lits = [R.choice(POOL) for _ in range(R.randrange(1, 4))]
             prog = " ".join(E(l) for l in lits) + " ㅂㅎ" + "ㄱㄴㄷㄹ"[len(lits)]
             MOD._MODULE_REGISTRY.clear(); os.chdir(d)
             try:
@@ -322,6 +324,15 @@ def c15_semantics(r, seed, tier, model_ok):
                                ("unknown-builtin", f"ㅂ {E(R.choice([77, 1, -3]))} ㅂㅎㄷ"), ("unknown-builtin-deep", f"ㅂ ㅂ {E(R.choice([9, 5]))} ㅂㅎㄹ"), ("dir-by-literal", "ㄹ ㅂㅎㄴ")]:
                 MOD._MODULE_REGISTRY.clear(); got = ev(prog); n += 1; cnt[what + ":" + got.split()[0]] += 1
                 if not got.startswith("E 5,"): bad.append(dict(program=prog, impl=got, model=f"language-level exception ({what})", which=["bad_module"]))
+            # a module file with NO EXPRESSION need not be blank: every character that is no Hangul consonant is a separator, so a byte-order mark,
+            # a comment in Latin letters, vowels, digits, punctuation, CRLF blank lines all make an EMPTY module - by either route, also under ㅅㄷ
+            for i, body in enumerate([] if trial % 6 else ["\ufeff", "\ufeff\r\n\r\n", "# TODO: nothing here yet", "ㅏㅑㅓ", "123 456", "...", "\r\n", "\t \n", "\u3000", "\ufeff# x\n", "\x0c", "()"]):
+                nm = f"ㄱㄴㄷ{'ㄱ' * (2 * i)}ㄹ"; open(nm, "w", encoding="utf-8", newline="").write(body)
+                for what, prog, want in [("no-expression-by-path", f"{strlit(nm)} ㅂㅎㄴ", "E 5,"), ("no-expression-by-literal", f"{nm} ㅂㅎㄴ", "E 5,"),
+                                         ("no-expression-under-try", f"({strlit(nm)} ㅂㅎㄴ) ((ㅈㅈㄱ) ㅎ) ㅅㄷㅎㄷ", "V 63"), ("no-expression-literal-under-try", f"({nm} ㅂㅎㄴ) ((ㅈㅈㄱ) ㅎ) ㅅㄷㅎㄷ", "V 63")]:
+                    MOD._MODULE_REGISTRY.clear(); got = ev(prog); n += 1; cnt[what + ":" + got.split()[0]] += 1
+                    if not got.startswith(want): bad.append(dict(program=prog + f"   (module text: {body!r})", impl=got, model=f"{want}... : a module without an expression is a language-level exception ({what})", which=["bad_module"]))
+                os.remove(nm)
             # a bad module stays bad: importing it again in the same process (no registry reset), also as a retry inside a handler, by either route
             open("ㅅ", "w").write("ㄴ ㄷ"); MOD._MODULE_REGISTRY.clear()
             for what, prog in [("two-expressions-first", "ㅅ ㅂㅎㄴ"), ("two-expressions-again", "ㅅ ㅂㅎㄴ"), ("two-expressions-by-path", f"{strlit('ㅅ')} ㅂㅎㄴ"),
